@@ -75,13 +75,15 @@ class C15(vlib.Check):
                 bad = sorted(bad)
                 self.count("serial-bad:" + where)
             self.count("mode:%s" % mode[0])
-            yield {"t": "batch", "files": files, "bad": bad, "order": order, "opts": o, "mode": mode[0], "workers": mode[1]}
+            yield {"t": "batch", "files": files, "bad": bad, "order": order, "opts": o, "mode": mode[0], "workers": mode[1],
+                   "names": ["plain", "proto", "mixed"][k % 3]}
         for k in range(2 if self.tier == "quick" else 10):
             nfiles = rng.randint(4, 6)
             files = rng.sample(refs, nfiles)
             o = {"bits": 1024, "level": 2, "first": 2, "counts": False}
             self.count("interrupt")
             yield {"t": "interrupt", "files": files, "bad": sorted(rng.sample(range(nfiles), rng.choice([0, 1]))), "opts": o,
+                   "names": ["proto", "mixed", "plain"][k % 3],
                    "ks": list(range(0, nfiles + 1)) if self.tier == "thorough" else sorted(rng.sample(range(0, nfiles), 2))}
 
     # ------------------------------------------------------------------
@@ -99,10 +101,21 @@ class C15(vlib.Check):
                 m.RemoveAllConformers()
                 for j in range(min(3, src.GetNumConformers())):
                     m.AddConformer(Chem.Conformer(src.GetConformer(j)), assignId=True)
-                m.SetProp("_Name", "mol%02d" % i)
+                m.SetProp("_Name", self._name(case, i))
                 mol_to_sdf(m, p)
             paths.append(p)
         return paths
+
+    @staticmethod
+    def _name(case, i):
+        """input names: plain, or protonation states / numbered variants of one parent (names that differ only in the suffix
+        e3fp's MolItemName parses)"""
+        scheme = case.get("names", "plain")
+        if scheme == "proto":
+            return "LIG-%d" % i
+        if scheme == "mixed":
+            return ["LIG-0", "LIG-1", "LIG", "LIG_1", "LIG-1_1", "LIG_2", "OTHER-0", "OTHER"][i % 8]
+        return "mol%02d" % i
 
     def _run(self, paths, o, mode, workers, db_file=None, out_dir_base=None, overwrite=False):
         FG.run(paths, bits=o["bits"], first=o["first"], level=o["level"], counts=o["counts"], db_file=db_file,
@@ -196,6 +209,14 @@ class C15(vlib.Check):
             self._run(paths, o, "serial", 1, out_dir_base=clean)
             cdir = clean + str(o["level"])
             clean_files = {f: [dump_fp(x) for x in fpm.loadz(os.path.join(cdir, f))] for f in sorted(os.listdir(cdir))}
+            # one output per good input, holding exactly that input's fingerprints (computed without saving)
+            per = [r for r in self._per_input(paths, o) if r is not None]
+            want_sets = sorted(sorted(r) for r in per)
+            got_sets = sorted(sorted((str(x.name), tuple(dump_fp(x)["idx"]), tuple(map(tuple, dump_fp(x)["cnt"]))) for x in fpm.loadz(os.path.join(cdir, f)))
+                              for f in sorted(os.listdir(cdir)))
+            if got_sets != want_sets:
+                return {"key": "outputs-not-one-per-input", "what": "%d good inputs (names %s) gave %d output files %s whose contents are not the per-input fingerprints" % (
+                    len(per), [self._name(case, i) for i in range(len(paths)) if i not in case["bad"]], len(clean_files), sorted(clean_files))}
             for k in case["ks"]:
                 base = os.path.join(d, "run%d_" % k)
                 env = dict(os.environ, PYTHONPATH=vlib.VERIF, C15_CRASH_AFTER=str(k))
